@@ -52,6 +52,12 @@ TARGETS = {
             ("py_trees/behaviours.py", "TickCounter", "initialise", "TickCounter_initialise"),
             ("py_trees/timers.py", "Timer", "update", "Timer_update"),
             ("py_trees/timers.py", "Timer", "initialise", "Timer_initialise")],
+    # the four tip() methods (TipFn below): a behaviour is its id, "a behaviour or None" is Option Nat, what the
+    # recursive calls on the current / decorated child / root return is a parameter
+    "C19": [("py_trees/behaviour.py", "Behaviour", "tip", "Behaviour_tip"),
+            ("py_trees/composites.py", "Composite", "tip", "Composite_tip"),
+            ("py_trees/decorators.py", "Decorator", "tip", "Decorator_tip"),
+            ("py_trees/trees.py", "BehaviourTree", "tip", "BehaviourTree_tip")],
 }
 
 # generated definition -> the bridge theorem that relates it to the model (Props/<Cxx>g.lean)
@@ -69,9 +75,11 @@ BRIDGE = {
     "TickCounter_initialise": "C17_gen_tickcounter_initialise",
     "Timeout_update": "C10_gen_timeout_update", "Timeout_initialise": "C10_gen_timeout_initialise",
     "Timer_update": "C17_gen_timer_update", "Timer_initialise": "C17_gen_timer_initialise",
+    "Behaviour_tip": "C19_gen_behaviour_tip", "Composite_tip": "C19_gen_composite_tip_seq",
+    "Decorator_tip": "C19_gen_decorator_tip", "BehaviourTree_tip": "C19_gen_tree_tip",
 }
 
-LEAN_TYPE = {"Int": "Int", "Str": "List Char", "Status": "Status", "Bool": "Bool"}
+LEAN_TYPE = {"Int": "Int", "Str": "List Char", "Status": "Status", "Bool": "Bool", "Ref": "Option Nat"}
 
 
 def find_class(tree, name):
@@ -219,7 +227,7 @@ class Fn(object):
             raise Unsupported("constant %r" % (e.value,))
         if isinstance(e, ast.Name):
             if e.id in env:
-                if env[e.id][1] in ("Opaque", "ChildRef"):
+                if env[e.id][1] in ("Opaque", "ChildRef", "Cur", "Root"):
                     raise Unsupported("use of the opaque value " + e.id)
                 return env[e.id]
             raise Unsupported("name %s" % e.id)
@@ -429,7 +437,7 @@ class Fn(object):
                 return "%slet %s : %s := %s\n%s" % (pad, n, LEAN_TYPE[t], v, self.block(rest, env, ind))
             if isinstance(tgt, ast.Name):
                 v, t = self.expr(val, env)
-                if t in ("Opaque", "ChildRef"):
+                if t in ("Opaque", "ChildRef", "Cur", "Root"):
                     env = dict(env)
                     env[tgt.id] = (None, t)     # Opaque: any later use in a translated expression is a type error
                     return self.block(rest, env, ind)
@@ -486,6 +494,93 @@ class Fn(object):
         return LEAN_TYPE[r]
 
 
+class TipFn(Fn):
+    """The tip() methods (C19).  A behaviour is its id (`self : Nat`), "a behaviour or None" is `Option Nat`; the object
+    graph is not translated: what `tip()` of the current child / the decorated child / the root returns, and whether
+    there is a current child, are parameters, so that the generated definitions are exactly one level of the model's
+    recursion.  Binders are fixed per kind (used or not) so that the bridge theorems keep their statements.
+      self -> some self; None -> none; self.status -> status; self.current_child is [not] None -> curNone;
+      self.current_child.tip() -> curTip; self.decorated.status -> child; self.decorated.tip() -> childTip;
+      self.root.tip() -> rootTip; super().tip() -> Behaviour_tip self status (the class must derive from Behaviour)"""
+    BINDERS = {
+        "Behaviour": "(self : Nat) (status : Status)",
+        "Composite": "(self : Nat) (status : Status) (curNone : Bool) (curTip : Option Nat)",
+        "Decorator": "(self : Nat) (status : Status) (child : Status) (childTip : Option Nat)",
+        "BehaviourTree": "(rootTip : Option Nat)",
+    }
+
+    def __init__(self, cls, fn, consts_of):
+        Fn.__init__(self, cls, fn, consts_of)
+        self.kind = cls.name
+        if self.kind not in self.BINDERS:
+            raise Unsupported("tip() of class " + cls.name)
+        if self.params or self.writes or self.raises:
+            raise Unsupported("tip() with arguments, assignments to self or raise")
+        bases = [ast.unparse(b) for b in cls.bases]
+        self.super_is_behaviour = bool(bases) and bases[0] in ("behaviour.Behaviour", "Behaviour")
+
+    def ref_kind(self, e, env):
+        """which object an expression denotes: 'self' | 'Cur' | 'ChildRef' | 'Root' | None"""
+        if isinstance(e, ast.Name):
+            if e.id == "self":
+                return "self"
+            return env.get(e.id, (None, None))[1] if env.get(e.id, (None, None))[1] in ("Cur", "ChildRef", "Root") else None
+        if isinstance(e, ast.Attribute) and isinstance(e.value, ast.Name) and e.value.id == "self":
+            return {("Composite", "current_child"): "Cur", ("Decorator", "decorated"): "ChildRef",
+                    ("BehaviourTree", "root"): "Root"}.get((self.kind, e.attr))
+        return None
+
+    def expr(self, e, env):
+        if isinstance(e, ast.Constant) and e.value is None:
+            return "none", "Ref"
+        rk = self.ref_kind(e, env)
+        if rk == "self":
+            if self.kind == "BehaviourTree":
+                raise Unsupported("the tree itself is not a behaviour")
+            return "(some self)", "Ref"
+        if rk is not None:
+            return None, rk
+        if isinstance(e, ast.Attribute) and e.attr == "status":
+            k = self.ref_kind(e.value, env)
+            if k == "self" and self.kind != "BehaviourTree":
+                return "status", "Status"
+            if k == "ChildRef":
+                return "child", "Status"
+            raise Unsupported("attribute " + ast.unparse(e))
+        if isinstance(e, ast.Compare) and len(e.ops) == 1 and isinstance(e.ops[0], (ast.Is, ast.IsNot)) \
+                and isinstance(e.comparators[0], ast.Constant) and e.comparators[0].value is None:
+            if self.ref_kind(e.left, env) != "Cur":
+                raise Unsupported("`is None` on " + ast.unparse(e.left))
+            return ("curNone" if isinstance(e.ops[0], ast.Is) else "(!curNone)"), "Bool"
+        if isinstance(e, ast.Call) and not e.args and not e.keywords and isinstance(e.func, ast.Attribute) \
+                and e.func.attr == "tip":
+            tgt = e.func.value
+            if isinstance(tgt, ast.Call) and ast.unparse(tgt.func) == "super" \
+                    and ast.unparse(tgt) in ("super()", "super(%s, self)" % self.kind):
+                if self.kind not in ("Composite", "Decorator") or not self.super_is_behaviour:
+                    raise Unsupported("super().tip() in a class whose first base is not Behaviour")
+                return "(Behaviour_tip self status)", "Ref"
+            k = self.ref_kind(tgt, env)
+            if k in ("Cur", "ChildRef", "Root"):
+                return {"Cur": "curTip", "ChildRef": "childTip", "Root": "rootTip"}[k], "Ref"
+            raise Unsupported("call " + ast.unparse(e))
+        if isinstance(e, ast.Call) and ast.unparse(e.func) in ("behaviour.Behaviour.tip", "Behaviour.tip") \
+                and len(e.args) == 1 and self.ref_kind(e.args[0], env) == "self" and not e.keywords \
+                and self.kind in ("Composite", "Decorator"):
+            return "(Behaviour_tip self status)", "Ref"
+        return Fn.expr(self, e, env)
+
+    def ret_type(self):
+        return "Option Nat"
+
+    def translate(self, lean_name):
+        self.counter = 0
+        body = self.block(list(self.fn.body), {}, 1)
+        if self.reads or self.uses_now:
+            raise Unsupported("tip() reads " + ", ".join(self.reads))
+        return "def %s %s : Option Nat :=\n%s\n" % (lean_name, self.BINDERS[self.kind], body)
+
+
 HEADER = """/-
   GENERATED by /verif/harness/py2lean.py from the current source of $VERIF_REPO — do not edit.
   Regenerated on every run of ./check %s; the bridge theorems in PyTreesProofs/Props/%sg.lean relate
@@ -507,7 +602,7 @@ def translate_target(repo, trees, f, cname, fname, lname):
     cls = find_class(tree, cname)
     fn = find_func(cls, fname)
     consts = {c.name: class_constants(c) for c in tree.body if isinstance(c, ast.ClassDef)}
-    return Fn(cls, fn, consts).translate(lname)
+    return (TipFn if fname == "tip" else Fn)(cls, fn, consts).translate(lname)
 
 
 def generate(repo, pid, pins=None):
